@@ -283,6 +283,15 @@ def translate_one(repo, rel, fn, callees, consts):
                 except gen_api.Unsupported as ex: raise Unsupported(str(ex))
         f = Fn(repo, rel, fn, callees, consts)
         res = f.translate()
+        # `Sha1` / `Hmac` are the types of the sha1 / hmac crates (one plain `use`, no alias, no local type of that name)
+        import gen_api
+        imp = gen_api.use_imports(f.text)
+        msk = gc.mask_literals(f.text)
+        need = {"Sha1": "sha1::Sha1"}
+        if any(x.startswith("HStmt.hmac") for x in f.stmts): need["Hmac"] = "hmac::Hmac"
+        for tn, path in need.items():
+            if imp.get(tn) != [path] or re.search(r"\b(?:struct|type|enum|trait|mod|fn)\s+" + tn + r"\b", msk):
+                raise Unsupported("%s: %s is not (only) %s: %s" % (rel, tn, path, imp.get(tn)))
         return "⟨[%s], %s, none⟩" % (", ".join(f.stmts), res)
     except (Unsupported, gc.Missing) as ex:
         return "⟨[], HArg.lit [], some %s⟩" % lean_str(str(ex))
